@@ -282,8 +282,12 @@ pub fn write_float_nonscientific<const FORMAT: u128>(
     let decimal_point = options.decimal_point();
 
     // Round and truncate the number of significant digits.
+    // The leading zeros of a value below 1 are not significant digits, so the
+    // digit limit applies after them: the negative exponent break that selected
+    // this notation bounds their count, and the buffer size accounts for it.
     let mut start = integer_cursor;
-    let end = fraction_cursor.min(start + MAX_DIGIT_LENGTH + 1);
+    let leading_zeros = ltrim_char_count(&buffer[start..fraction_cursor], b'0');
+    let end = fraction_cursor.min(start + leading_zeros + MAX_DIGIT_LENGTH + 1);
     let (mut digit_count, carried) =
         truncate_and_round(buffer, start, end, format.radix(), options);
 
